@@ -51,9 +51,10 @@ Lemma fit_shape s d prefit refit cnt s' : fit s d prefit refit cnt = (s', None) 
      ((refit = false \/ count = 0) /\ clf s' = Some (CBasis f) /\ refit_ s' = false)).
 Proof.
   unfold fit.
-  set (bm' := match b_modes (basis s) with None => Some (d_rows d) | Some k => Some k end).
-  set (b := if prefit then basis s else {| b_identity := b_identity (basis s); b_modes := bm'; b_fit := Some (d, bm') |}).
-  destruct (negb prefit && b_identity (basis s) && _); [discriminate|].
+  set (bm' := if b_default (basis s) then Some (d_rows d) else b_modes (basis s)).
+  set (b := if prefit then basis s
+            else {| b_identity := b_identity (basis s); b_modes := bm'; b_default := b_default (basis s); b_fit := Some (d, bm') |}).
+  destruct (negb prefit && b_identity (basis s) && negb (b_default (basis s)) && _); [discriminate|].
   destruct (b_fit b) as [[bd bm]|]; [|discriminate].
   destruct (negb _); [discriminate|].
   set (f := {| f_data := d; f_bdata := bd; f_bmodes := bm; f_nbm := nbm s |}).
